@@ -159,7 +159,8 @@ def r1_responses(report, repo):
       if ended != 'raise' or r is None or last_attr(r.exc) != \
           'FastbootRemoteFailureError':
         return 'FAIL-row: must raise FastbootRemoteFailureError'
-      if not any(core.is_name(x, rem) for x in ast.walk(r.exc)):
+      if not any(core.is_name(x, rem) or slice_of(x, 4, None)
+                 for x in ast.walk(r.exc)):
         return 'FAIL-row: the error does not carry the device text'
       if len(cbs) != 1:
         return 'FAIL-row: the callback must see the FAIL message once'
@@ -176,8 +177,10 @@ def r1_responses(report, repo):
         core.is_name(n.targets[0], hdr)]
   rs = [n for n in walk_no_nested(f.node) if isinstance(n, ast.Assign) and
         core.is_name(n.targets[0], rem)]
-  ok = len(hs) == 1 and len(rs) == 1 and slice_of(hs[0].value, None, 4) \
-      and slice_of(rs[0].value, 4, None)
+  ok = len(hs) == 1 and slice_of(hs[0].value, None, 4) and (
+      (len(rs) == 1 and slice_of(rs[0].value, 4, None)) or
+      # no local for the payload: the slice is used where it is needed
+      (not rs and any(slice_of(n, 4, None) for n in walk_no_nested(f.node))))
   report.check(ok, rule, f.qualname, 'split', f.node,
                'header = response[:4], payload = response[4:]')
 
